@@ -77,7 +77,7 @@ Definition pc_ok (s : bstate) (p : bpc) : Prop :=
   | BW2e => b_in s <> 0
   | BBc2 => b_out s = 0
   | BUnl true => b_out s = 0
-  | BUnl false => b_out s <> 0
+  | BUnl false => b_out s <> 0 /\ b_out s < b_thr s
   | _ => True
   end.
 
@@ -394,7 +394,8 @@ Qed.
 Lemma binit_inv thr rems : 0 < thr < two32 -> Inv (binit thr rems).
 Proof.
   intros H. unfold binit.
-  constructor; simpl_state; rewrite ?cnt_init by reflexivity; unf_counts; cbn [is_free]; try lia.
+  constructor; simpl_state; rewrite ?cnt_init by reflexivity; unf_counts; cbn [is_free]; try lia;
+    try reflexivity.
   intros t th Hn. apply nth_error_In in Hn. apply in_map_iff in Hn. destruct Hn as (r & <- & _).
   cbn [bt_pc]. destruct r; cbn; split; auto; discriminate.
 Qed.
@@ -402,3 +403,121 @@ Qed.
 Theorem barrier_reachable_inv thr rems sched :
   0 < thr < two32 -> Inv (brun (binit thr rems) sched).
 Proof. intros. apply brun_inv, binit_inv; auto. Qed.
+
+(* ---------------- what the invariant says about the trace ---------------- *)
+Lemma cnt_pos_exists f l : 0 < cnt f l -> exists t th, nth_error l t = Some th /\ f (bt_pc th) = true.
+Proof.
+  induction l as [|x r IH]; cbn [cnt]; [lia|]. intros H.
+  destruct (f (bt_pc x)) eqn:E.
+  - exists O, x. auto.
+  - cbn [b2z] in H. destruct IH as (t & th & A & B); [lia|]. exists (S t), th. auto.
+Qed.
+
+Lemma div_block thr g x : 0 < thr -> 0 <= x < thr ->
+  (thr * g + x) / thr = g /\ (thr * g + x) mod thr = x.
+Proof.
+  intros Ht Hx. split.
+  - symmetry. apply (Z.div_unique _ _ g x); lia.
+  - symmetry. apply (Z.mod_unique _ _ g x); lia.
+Qed.
+
+(* The property, on the events of a run (newest first):
+   (1) at most count * (complete groups of arrivals) threads have returned: nobody is
+       released before the count-th thread of its round has arrived;
+   (2) among the first k returns exactly floor(k / count) are non-zero: one per round,
+       namely the last leaver's;
+   (3) a round is joined (++in) only when every thread of the earlier rounds has passed
+       the exit (--out): rounds do not mix; and never more exits than complete rounds. *)
+Definition barrier_safe (thr : Z) (tr : list bevent) : Prop :=
+  rets tr <= thr * (calls tr / thr) /\
+  nzrets tr = rets tr / thr /\
+  leaves tr <= thr * (joins tr / thr) /\
+  (joins tr mod thr <> 0 -> leaves tr = thr * (joins tr / thr)) /\
+  joins tr <= calls tr /\ rets tr <= leaves tr.
+
+Lemma inv_safe s : Inv s -> barrier_safe (b_thr s) (b_trace s) /\ (b_in s <> 0 -> b_out s = 0).
+Proof.
+  intros I. inv_facts I. split; [|auto].
+  pose proof (cnt_nonneg pendp (b_ths s)) as Pp0.
+  pose proof (cnt_nonneg pendl (b_ths s)) as Pl0.
+  pose proof (cnt_nonneg pre (b_ths s)) as Pr0.
+  assert (Pp1 : cnt pendp (b_ths s) <= 1).
+  { pose proof (cnt_le pendp holds (b_ths s)) as L.
+    assert (forall p, pendp p = true -> holds p = true) as X by (intros []; cbn; auto).
+    specialize (L X). destruct (is_free (b_owner s)); lia. }
+  assert (Plp : cnt pendl (b_ths s) <= cnt pendp (b_ths s)).
+  { apply cnt_le. intros [| | | | | | |[]|]; cbn; auto. }
+  destruct (div_block (b_thr s) (b_gen s) (b_in s)) as [Dj Mj]; [lia|lia|].
+  rewrite <- H4 in Dj, Mj.
+  unfold barrier_safe. repeat split.
+  - (* (1) *)
+    assert (b_gen s <= calls (b_trace s) / b_thr s) by (apply Z.div_le_lower_bound; lia).
+    assert (b_thr s * b_gen s <= b_thr s * (calls (b_trace s) / b_thr s))
+      by (apply Z.mul_le_mono_nonneg_l; lia).
+    lia.
+  - (* (2) *)
+    assert (C : cnt pendp (b_ths s) = 0 \/ cnt pendp (b_ths s) = 1) by lia.
+    destruct C as [C|C].
+    + assert (cnt pendl (b_ths s) = 0) by lia.
+      destruct (b_out s =? 0) eqn:Eo.
+      * assert (rets (b_trace s) = b_thr s * b_gen s + 0) by lia.
+        destruct (div_block (b_thr s) (b_gen s) 0); try lia. rewrite H13. lia.
+      * assert (rets (b_trace s) = b_thr s * (b_gen s - 1) + (b_thr s - b_out s)) by lia.
+        destruct (div_block (b_thr s) (b_gen s - 1) (b_thr s - b_out s)); try lia. rewrite H13. lia.
+    + destruct (cnt_pos_exists pendp (b_ths s)) as (t & th & Hn & Hp); [lia|].
+      destruct (i_pw s I _ _ Hn) as [Ho Hok].
+      destruct (bt_pc th) eqn:Hpc; try discriminate.
+      * (* BBc2: last leaver *)
+        cbn in Hok.
+        pose proof (cnt_ge_one pendl _ _ _ Hn) as G. rewrite Hpc in G. specialize (G eq_refl).
+        assert (E : (b_out s =? 0) = true) by lia. rewrite E in *.
+        assert (rets (b_trace s) = b_thr s * (b_gen s - 1) + (b_thr s - 1)) by lia.
+        destruct (div_block (b_thr s) (b_gen s - 1) (b_thr s - 1)); try lia. rewrite H12. lia.
+      * destruct last; cbn in Hok.
+        -- pose proof (cnt_ge_one pendl _ _ _ Hn) as G. rewrite Hpc in G. specialize (G eq_refl).
+           assert (E : (b_out s =? 0) = true) by lia. rewrite E in *.
+           assert (rets (b_trace s) = b_thr s * (b_gen s - 1) + (b_thr s - 1)) by lia.
+           destruct (div_block (b_thr s) (b_gen s - 1) (b_thr s - 1)); try lia. rewrite H12. lia.
+        -- assert (Pl : cnt pendl (b_ths s) = 0).
+           { destruct (Z.eq_dec (cnt pendl (b_ths s)) 0) as [|N]; auto.
+             destruct (cnt_pos_exists pendl (b_ths s)) as (t2 & th2 & Hn2 & Hp2); [lia|].
+             destruct (i_pw s I _ _ Hn2) as [_ Hok2].
+             destruct (bt_pc th2) as [| | | | | | |[]|]; cbn in Hp2, Hok2; try discriminate; lia. }
+           assert (E : (b_out s =? 0) = false) by lia. rewrite E in *.
+           assert (rets (b_trace s) = b_thr s * (b_gen s - 1) + (b_thr s - b_out s - 1)) by lia.
+           destruct (div_block (b_thr s) (b_gen s - 1) (b_thr s - b_out s - 1)); try lia.
+           rewrite H12. lia.
+  - rewrite Dj. lia.
+  - intros Hm. rewrite Mj in Hm. rewrite Dj. specialize (H2 Hm). lia.
+  - lia.
+  - lia.
+Qed.
+
+Lemma bstep_state_thr s c : b_thr (bstep_state s c) = b_thr s.
+Proof.
+  unfold bstep_state, bstep, bget.
+  destruct (nth_error (b_ths s) (who c)) as [th|]; auto.
+  destruct (bt_pc th); auto;
+    repeat match goal with |- context[if ?c then _ else _] => destruct c end;
+    try reflexivity; unfold bgate, bleave, bset_pc, bemit, bset_owner, bbroadcast; cbn;
+    repeat match goal with |- context[if ?c then _ else _] => destruct c end; reflexivity.
+Qed.
+
+Lemma brun_thr sched : forall s, b_thr (brun s sched) = b_thr s.
+Proof.
+  induction sched as [|c r IH]; intros s; [reflexivity|].
+  change (brun s (c :: r)) with (brun (bstep_state s c) r).
+  rewrite IH. apply bstep_state_thr.
+Qed.
+
+(* the final theorem: for every number of threads, every number of rounds per thread,
+   every count and EVERY schedule (including spurious wake-ups), after every step *)
+Theorem barrier_fallback_correct thr rems sched :
+  0 < thr < two32 ->
+  let s := brun (binit thr rems) sched in
+  barrier_safe thr (b_trace s) /\ (b_in s <> 0 -> b_out s = 0).
+Proof.
+  intros H. cbv zeta.
+  pose proof (inv_safe _ (barrier_reachable_inv thr rems sched H)) as S.
+  rewrite brun_thr in S. exact S.
+Qed.
